@@ -9,7 +9,9 @@ The model runs at `Float` (IEEE f64, native `exp`/`pow`/`sqrt`, SEQUENTIAL kerne
 
 **agree** — the implementation's value at every sweep point is compared with the model's within
 `K·2⁻⁵²·max(|lower|,|upper|)` (the two model bins the point interpolates between), `K = 4·n + 32`,
-plus an absolute `1e-290` for the subnormal range. Why a bound and not equality: `Kde::pdf` sums
+plus an absolute `1e-290` for the subnormal range. Why a bound and not equality (since /repo 2c91348 `Kde::pdf` sums
+sequentially like the model; the bound is kept because `exp`/`pow` may still differ, and it covers the
+older code): `Kde::pdf` summed
 `n` kernel values in a rayon tree whose shape depends on the pool (each re-association changes
 the sum by ≤ (n−1) half-ulps, relative, all terms being ≥ 0), and `exp`/`pow` come from the
 system libm on the Rust side and from Lean's bundled glibc here (≤ 1 ulp each). The Bayes ratio
@@ -234,9 +236,97 @@ def handleKde (args impl : List String) : Option Reply := do
       | _, _ => "na"
   pure { model, agree, spec }
 
+/-! ### `psmpep`: the value `score_psms` reports
+
+`psmpep kind u32 u32 [n features…] | fit [n (decoy u32 discriminant u32 posterior_error)…]`
+
+The driver does not redo the LDA (C15). From the IMPLEMENTATION's own discriminant scores and labels
+it rebuilds the default estimator (`Builder::default()`: 1000 bins, monotonic, bandwidth factor 1) with
+the Float model, evaluates `posterior_error`, and expects `reported`: `log10(pep) as f32`, `-324.0` when
+that is infinite (order in the code: `posterior_error(score).log10() as f32`, then the `is_infinite` test).
+
+Why an interval and not equality: `Feature::discriminant_score` is the `f32` rounding of the `f64` score
+the code used, for the PSM itself and for every sample the KDE was fitted to. With
+`δ = 2⁻²³·max|score|` (two f32 half-ulps of the largest score: one for the evaluation point, one for the
+samples / grid origin) the PEP being antitone gives `P(s+δ) ≤ pep ≤ P(s−δ)`; the bandwidths move by a
+relative `≤ 2⁻²⁴`, which changes a kernel value `exp(-z²/2)` by the factor `exp(z²·2⁻²⁴)`, `|z| ≤ 39` before
+`exp` underflows, i.e. `log10` by `≤ 39²·2⁻²³/ln 10 ≈ 7.9e-5`; the existing f64 allowance of op `kde`
+(relative `(4n+32)·2⁻⁵²`) moves `log10` by `r/ln 10 < 1e-11`, and the f32 cast by half an f32 ulp. Allowed:
+`log10 P(s+δ) − a ≤ reported ≤ log10 P(s−δ) + a`, `a = 8e-5 + 4·2⁻²³·|log10 P|` (4 f32 ulps). Where the
+model PEP is below `1e-290` (kernel values about to underflow, relative accuracy lost) the `-324` floor is
+accepted as well and the upper bound is widened by 1. The floor itself is accepted only when `P(s+δ) = 0`
+(or `< 1e-290`). A fit that failed must leave `discriminant_score = 0.0`, `posterior_error = 1.0`
+(the values `Scorer` initialises; `score_psms` returns `None` before touching them).
+-/
+
+structure PsmRow where
+  decoy : Bool
+  disc : Float32
+  pep : Float32
+
+def parsePsmReply : P (Bool × List PsmRow) := do
+  let fit ← bool
+  let rows ← list (do let d ← bool; let s ← f32; let p ← f32; pure ({ decoy := d, disc := s, pep := p } : PsmRow))
+  pure (fit, rows)
+
+/-- `log10(pep) as f32` with the `-324` floor, on the f64 value (the order `score_psms` uses) -/
+def reportedF (pep : Float) : Float32 :=
+  reported Float.log10 Float.toFloat32 (fun r => r.isInf) (-324.0 : Float32) pep
+
+def handlePsm (args impl : List String) : Option Reply := do
+  let n ← (args[3]?).bind String.toNat?
+  if impl == ["panic"] then
+    return { model := "-", agree := false, spec := "bad:panic" }
+  let (fit, rows) ← run parsePsmReply impl
+  if rows.length != n then
+    return { model := "-", agree := false, spec := "bad:length" }
+  let rowsA := rows.toArray
+  if !fit then
+    -- `score_psms` returned None: it must not have touched the two fields
+    let bad := (List.range n).filter fun k =>
+      match rowsA[k]? with
+      | some r => r.disc.toBits != 0 || r.pep.toBits != (1.0 : Float32).toBits
+      | none => true
+    let verdict := match bad with | [] => "ok" | k :: _ => fmtIdx "bad:unfit_modified" k
+    return { model := "0 -", agree := bad.isEmpty, spec := verdict }
+  let scores := rows.map (·.disc.toFloat)
+  let decoys := rows.map (·.decoy)
+  match build floatFns scores decoys 1000 1.0 true with
+  | none => return { model := "-", agree := false, spec := "na" }
+  | some e =>
+    let smax := scores.foldl (fun a b => if a < absF b then absF b else a) 0
+    let δ := smax * (Float.ofBits 0x3E80000000000000)   -- 2⁻²³
+    let pe (s : Float) : Float := (posteriorError e s).getD (0/0)
+    let ulp4 : Float := 4 * Float.ofBits 0x3E80000000000000
+    let check (k : Nat) (r : PsmRow) : Option String :=
+      let s := r.disc.toFloat
+      let x := r.pep.toFloat
+      if x.isNaN || x.isInf then some (fmtIdx "bad:reported_pep_nonfinite" k) else
+      let pLo := pe (s + δ)
+      let pHi := pe (s - δ)
+      let pC := pe s
+      if pLo.isNaN || pHi.isNaN || pC.isNaN then some (fmtIdx "bad:reported_pep_model_nan" k) else
+      let pLo := if pC < pLo then pC else pLo
+      let pHi := if pHi < pC then pC else pHi
+      let fringe := pLo < 1e-290
+      if x == -324.0 then
+        (if pLo == 0 || fringe then none else some (fmtIdx "bad:reported_pep_not_log10" k))
+      else
+        let lLo := Float.log10 pLo
+        let lHi := Float.log10 pHi
+        let lo := lLo - (8e-5 + ulp4 * absF lLo)
+        let hi := lHi + (8e-5 + ulp4 * absF lHi) + (if pHi < 1e-290 then 1 else 0)
+        if (pLo == 0 || lo ≤ x) && x ≤ hi then none else some (fmtIdx "bad:reported_pep_not_log10" k)
+    let verdicts := (List.range n).filterMap fun k => (rowsA[k]?).bind (check k)
+    let model := "1 " ++ outList (fun (r : PsmRow) => outF32 (reportedF (pe r.disc.toFloat))) rows
+    let verdict := match verdicts with | [] => "ok" | v :: _ => v
+    -- the model's own value lies inside the interval by construction, so agreement = the interval test
+    return { model, agree := verdicts.isEmpty, spec := verdict }
+
 def handle (op : String) (args impl : List String) : Option Reply :=
   match op with
   | "kde" => handleKde args impl
+  | "psmpep" => handlePsm args impl
   | _ => none
 
 end Sage.C14
